@@ -43,6 +43,7 @@ type flowParams struct {
 	NoMatch      []int   `json:"no_match"`       // records that do not match the processors' condition (Cond: "match")
 	GateDLQOpen  bool    `json:"gate_dlq_open"`  // the DLQ connector's Open is a pending event (an unresponsive DLQ during start-up)
 	Reject       map[string][]string `json:"reject"` // destination -> records/pieces it rejects (forced answers, C08)
+	Ctl          []string `json:"ctl"` // explicit control history (after "start"): stop, wait, stopwait, force, stopall, start; one at a time
 	SrcPositions string  `json:"src_positions"` // "" normal, "dup": record 1 repeats the position of record 0, "empty": record 1 has an empty position
 }
 
@@ -83,6 +84,9 @@ func (p flowParams) name() string {
 	}
 	if p.SrcPositions != "" {
 		n += "/srcpos=" + p.SrcPositions
+	}
+	if len(p.Ctl) > 0 {
+		n += "/ctl=" + strings.Join(p.Ctl, ",")
 	}
 	if p.Bundle > 0 {
 		n += fmt.Sprintf("/bundle%d", p.Bundle)
@@ -205,6 +209,31 @@ func flowScenario(p flowParams) verifkit.Scenario {
 				err := st.LC.Start(x.Ctx, stack.PipelineID)
 				x.W.Log("ctl", "start.ret", -1, errStr(err))
 			}})
+			for i, c := range p.Ctl {
+				c, name := c, fmt.Sprintf("%s#%d", c, i+1)
+				x.AddControl(&verifkit.Control{Name: name, AfterPrevReturned: true, Do: func() {
+					var err error
+					switch c {
+					case "start":
+						err = st.LC.Start(x.Ctx, stack.PipelineID)
+					case "stop":
+						err = st.LC.Stop(x.Ctx, stack.PipelineID, false)
+					case "force":
+						err = st.LC.Stop(x.Ctx, stack.PipelineID, true)
+					case "wait":
+						err = st.LC.WaitPipeline(stack.PipelineID)
+					case "stopwait":
+						err = st.LC.StopAndWait(x.Ctx, stack.PipelineID)
+					case "stopall":
+						if st.V1 != nil {
+							st.V1.StopAll(x.Ctx, pipeline.ErrGracefulShutdown)
+						} else {
+							err = st.V2.StopAll(x.Ctx, false)
+						}
+					}
+					x.W.Log("ctl", "hist."+c+".ret", i+1, errStr(err)+"|status="+strings.SplitN(st.Status(), "|", 2)[0])
+				}})
+			}
 			switch p.Stop {
 			case "stopwait":
 				x.AddControl(&verifkit.Control{Name: "stopwait", AfterPrevReturned: true, Do: func() {
